@@ -44,14 +44,21 @@ unsafe impl<T: Tagged + 'static> CastFrom<T> for dyn Tagged {
     }
 }
 
-// keys: 0 = (Cell0, 0), 1 = (Cell1, 0), 2 = (Cell0, 1) [by id only], 3 = (CellX, 0) [absent]
-const NK: usize = 4;
+/// zero-sized: boxes of it never allocate, so all of its instances share one address
+#[derive(Default, Clone, Copy)]
+pub struct Zst;
+
+// keys: 0 = (Cell0, 0), 1 = (Cell1, 0), 2 = (Cell0, 1) [by id only], 3 = (CellX, 0) [absent],
+//       4 = (Zst, 0), 5 = (Zst, 1) [both by id only]
+const NK: usize = 6;
 
 fn key_id(k: u8) -> ResourceId {
     match k {
         0 => ResourceId::new::<Cell0>(),
         1 => ResourceId::new::<Cell1>(),
         2 => ResourceId::new_with_dynamic_id::<Cell0>(1),
+        4 => ResourceId::new::<Zst>(),
+        5 => ResourceId::new_with_dynamic_id::<Zst>(1),
         _ => ResourceId::new::<CellX>(),
     }
 }
@@ -61,6 +68,8 @@ fn new_world() -> World {
     w.insert(Cell0(100));
     w.insert(Cell1(101));
     w.insert_by_id(ResourceId::new_with_dynamic_id::<Cell0>(1), Cell0(102));
+    w.insert(Zst);
+    w.insert_by_id(ResourceId::new_with_dynamic_id::<Zst>(1), Zst);
     w
 }
 
@@ -81,6 +90,8 @@ pub enum G<'a> {
     Sd0((Read<'a, Cell0>, Write<'a, Cell1>)),
     Sd1((Option<Read<'a, CellX>>, Read<'a, Cell1>)),
     Sd2((Option<Write<'a, Cell0>>, Option<Read<'a, Cell1>>)),
+    Rz(Fetch<'a, Zst>),
+    Wz(FetchMut<'a, Zst>),
     Sd4(Dz<'a>),
     Sd5(Dt<'a>),
     Mr(AtomicRef<'a, dyn Tagged + 'static>),
@@ -106,6 +117,8 @@ pub enum Op8 {
     /// call `next` on live iterator number `.0`; the yielded item becomes a guard of its own
     IterNext(u8),
     Clone(u8),
+    /// `guards[.0].clone_from(&guards[.1])`: afterwards guard .0 is a clone of guard .1 (and has given up what it held)
+    CloneFrom(u8, u8),
     Drop(u8),
     /// acquire (op index into `acquire_ops`) inside a closure that then panics
     AcquireThenPanic(u8),
@@ -135,11 +148,11 @@ enum Cls {
     Unit,
 }
 
-const PRESENT: [bool; NK] = [true, true, true, false];
+const PRESENT: [bool; NK] = [true, true, true, false, true, true];
 
 impl Model {
     fn new() -> Model {
-        Model { canary: [100, 101, 102, 0], next_canary: 1000, ..Default::default() }
+        Model { canary: [100, 101, 102, 0, 0, 0], next_canary: 1000, ..Default::default() }
     }
     fn can(&self, k: u8, ex: bool) -> bool {
         let k = k as usize;
@@ -254,6 +267,7 @@ fn acquire_real<'a>(w: &'a World, meta: &'a MetaTable<dyn Tagged>, op: Op8) -> R
         }
         Op8::TryFetchById(k @ (0 | 2)) => w.try_fetch_by_id::<Cell0>(key_id(k)).map(G::R0),
         Op8::TryFetchById(1) => w.try_fetch_by_id::<Cell1>(key_id(1)).map(G::R1),
+        Op8::TryFetchById(k @ (4 | 5)) => w.try_fetch_by_id::<Zst>(key_id(k)).map(G::Rz),
         Op8::TryFetchById(_) => {
             if w.try_fetch_by_id::<CellX>(key_id(3)).is_some() {
                 return Err("by-id fetch of an absent resource returned a guard".into());
@@ -262,6 +276,7 @@ fn acquire_real<'a>(w: &'a World, meta: &'a MetaTable<dyn Tagged>, op: Op8) -> R
         }
         Op8::TryFetchMutById(k @ (0 | 2)) => w.try_fetch_mut_by_id::<Cell0>(key_id(k)).map(G::W0),
         Op8::TryFetchMutById(1) => w.try_fetch_mut_by_id::<Cell1>(key_id(1)).map(G::W1),
+        Op8::TryFetchMutById(k @ (4 | 5)) => w.try_fetch_mut_by_id::<Zst>(key_id(k)).map(G::Wz),
         Op8::TryFetchMutById(_) => {
             if w.try_fetch_mut_by_id::<CellX>(key_id(3)).is_some() {
                 return Err("by-id fetch of an absent resource returned a guard".into());
@@ -325,6 +340,7 @@ fn touch(g: &mut G, hold: &Hold, m: &mut Model) -> Result<(), String> {
                 (G::Sd4(d), 0) => d.a.0 = c,
                 (G::Sd5(d), 1) => d.2 .0 = c,
                 (G::Mw(x), _) => x.set(c),
+                (G::Wz(_), _) => {}
                 _ => return Err("model says exclusive member but the guard has none".into()),
             }
         }
@@ -370,6 +386,8 @@ fn touch(g: &mut G, hold: &Hold, m: &mut Model) -> Result<(), String> {
         G::Mr(x) => vals.push(x.get()),
         G::Mw(x) => vals.push(x.get()),
         G::It(_) | G::ItMut(_) => {}
+        // a zero-sized value has nothing to read: skip the canary comparison for these guards
+        G::Rz(_) | G::Wz(_) => return Ok(()),
     }
     if vals.len() != hold.len() {
         return Err(format!("guard exposes {} values, model holds {} members", vals.len(), hold.len()));
@@ -390,7 +408,7 @@ pub fn acquire_ops() -> Vec<Op8> {
         v.push(Op8::TryFetch(t));
         v.push(Op8::TryFetchMut(t));
     }
-    for k in 0..4u8 {
+    for k in 0..6u8 {
         v.push(Op8::TryFetchById(k));
         v.push(Op8::TryFetchMutById(k));
     }
@@ -410,6 +428,11 @@ pub fn alphabet(max_guards: usize) -> Vec<Op8> {
         v.push(Op8::Clone(i));
         v.push(Op8::Drop(i));
         v.push(Op8::IterNext(i));
+        for j in 0..max_guards as u8 {
+            if i != j {
+                v.push(Op8::CloneFrom(i, j));
+            }
+        }
     }
     for (i, _) in acquire_ops().iter().enumerate() {
         v.push(Op8::AcquireThenPanic(i as u8));
@@ -500,6 +523,45 @@ pub fn run_history(h: &[Op8], max_guards: usize) -> Result<Option<Vec<u8>>, Fail
                     }
                 }
             }
+            Op8::CloneFrom(a, b) => {
+                let (a, b) = (a as usize, b as usize);
+                if a >= guards.len() || b >= guards.len() {
+                    return Ok(None);
+                }
+                // both have to be shared guards of one type
+                let ok = {
+                    let (ga, gb): (&mut G, &G) = if a < b {
+                        let (x, y) = guards.split_at_mut(b);
+                        (&mut x[a], &y[0])
+                    } else {
+                        let (x, y) = guards.split_at_mut(a);
+                        (&mut y[0], &x[b])
+                    };
+                    match (ga, gb) {
+                        (G::R0(x), G::R0(y)) => {
+                            x.clone_from(y);
+                            true
+                        }
+                        (G::R1(x), G::R1(y)) => {
+                            x.clone_from(y);
+                            true
+                        }
+                        (G::Rz(x), G::Rz(y)) => {
+                            x.clone_from(y);
+                            true
+                        }
+                        _ => false,
+                    }
+                };
+                if !ok {
+                    return Ok(None);
+                }
+                let old = m.guards[a].clone();
+                m.give(&old);
+                let new = m.guards[b].clone();
+                m.take(&new);
+                m.guards[a] = new;
+            }
             Op8::Clone(j) => {
                 if j as usize >= guards.len() || guards.len() >= max_guards {
                     return Ok(None);
@@ -507,6 +569,7 @@ pub fn run_history(h: &[Op8], max_guards: usize) -> Result<Option<Vec<u8>>, Fail
                 let c = match &guards[j as usize] {
                     G::R0(x) => G::R0(x.clone()),
                     G::R1(x) => G::R1(x.clone()),
+                    G::Rz(x) => G::Rz(x.clone()),
                     _ => return Ok(None),
                 };
                 guards.push(c);
@@ -741,6 +804,8 @@ fn run_concurrent(tasks: &[CAcq]) -> Vec<(usize, u8, bool)> {
         let (w, lg, ce) = (world.clone(), log.clone(), canary_err.clone());
         hs.push(shuttle::thread::spawn(move || {
             sched_point();
+            // kind 10 = the acquiring call begins (its effect lies between this and its 0 / 1 entry)
+            lg.lock().unwrap().push((ti, 10, true));
             let r = catch_unwind(AssertUnwindSafe(|| -> G {
                 match a {
                     CAcq::R(0) => G::R0(w.fetch()),
@@ -783,6 +848,8 @@ fn run_concurrent(tasks: &[CAcq]) -> Vec<(usize, u8, bool)> {
                     if before != after {
                         *ce.lock().unwrap() = Some(format!("task {} saw its resource change from {} to {} while holding a guard", ti, before, after));
                     }
+                    // kind 12 = the release begins
+                    lg.lock().unwrap().push((ti, 12, true));
                     drop(g);
                     lg.lock().unwrap().push((ti, 2, true));
                 }
@@ -808,41 +875,86 @@ fn c_key(a: CAcq) -> (usize, bool) {
     }
 }
 
+/// The cell operations inside the calls are scheduling points, so a call is an interval [begin, end] of the log
+/// and takes effect somewhere inside it.  The log is accepted iff SOME order of the effects that respects the
+/// real-time order of the intervals explains every outcome by the shared-xor-exclusive model (brute force: there
+/// are at most 6 operations).
 fn check_concurrent(tasks: &[CAcq], log: &[(usize, u8, bool)]) -> Option<(String, String)> {
-    let mut shared = [0u32; 3];
-    let mut excl = [false; 3];
-    for (ti, kind, _) in log {
-        if *ti == usize::MAX {
-            return Some(("guarded-value-changed-under-guard".into(), "a task saw its resource change while it held a guard".into()));
-        }
-        let (k, ex) = c_key(tasks[*ti]);
-        let can = if ex { shared[k] == 0 && !excl[k] } else { !excl[k] };
+    if log.iter().any(|e| e.0 == usize::MAX) {
+        return Some(("guarded-value-changed-under-guard".into(), "a task saw its resource change while it held a guard".into()));
+    }
+    // operations: (task, is_release, begin index, end index, acquired?)
+    let mut ops: Vec<(usize, bool, usize, usize, bool)> = Vec::new();
+    for (i, (ti, kind, _)) in log.iter().enumerate() {
         match kind {
-            0 => {
-                if !can {
-                    return Some(("aliasing-guard-returned".into(), format!("task {} obtained {:?} although the cell was borrowed (shared {}, exclusive {})", ti, tasks[*ti], shared[k], excl[k])));
-                }
-                if ex {
-                    excl[k] = true
-                } else {
-                    shared[k] += 1
+            10 | 12 => ops.push((*ti, *kind == 12, i, usize::MAX, false)),
+            0 | 1 | 2 => {
+                if let Some(o) = ops.iter_mut().rev().find(|o| o.0 == *ti && o.3 == usize::MAX) {
+                    o.3 = i;
+                    o.4 = *kind == 0;
                 }
             }
-            1 => {
-                if can {
-                    return Some(("unexpected-panic".into(), format!("task {} panicked on {:?} although the cell was available (shared {}, exclusive {})", ti, tasks[*ti], shared[k], excl[k])));
-                }
+            _ => {}
+        }
+    }
+    ops.retain(|o| o.3 != usize::MAX);
+    fn search(ops: &[(usize, bool, usize, usize, bool)], tasks: &[CAcq], done: &mut Vec<bool>, shared: &mut [u32; 3], excl: &mut [bool; 3]) -> bool {
+        if done.iter().all(|d| *d) {
+            return true;
+        }
+        for i in 0..ops.len() {
+            if done[i] {
+                continue;
             }
-            _ => {
+            // every operation that ended before this one began must already have taken effect
+            if (0..ops.len()).any(|j| !done[j] && j != i && ops[j].3 < ops[i].2) {
+                continue;
+            }
+            let (ti, is_release, _, _, acquired) = ops[i];
+            let (k, ex) = c_key(tasks[ti]);
+            let can = if ex { shared[k] == 0 && !excl[k] } else { !excl[k] };
+            let (s0, e0) = (*shared, *excl);
+            let ok = if is_release {
                 if ex {
                     excl[k] = false
                 } else {
                     shared[k] -= 1
                 }
+                true
+            } else if acquired {
+                if can {
+                    if ex {
+                        excl[k] = true
+                    } else {
+                        shared[k] += 1
+                    }
+                }
+                can
+            } else {
+                !can
+            };
+            if ok {
+                done[i] = true;
+                if search(ops, tasks, done, shared, excl) {
+                    return true;
+                }
+                done[i] = false;
             }
+            *shared = s0;
+            *excl = e0;
         }
+        false
     }
-    None
+    let mut done = vec![false; ops.len()];
+    if search(&ops, tasks, &mut done, &mut [0; 3], &mut [false; 3]) {
+        None
+    } else {
+        let any_fail = ops.iter().any(|o| !o.1 && !o.4);
+        Some((
+            if any_fail { "outcomes-not-linearizable".into() } else { "aliasing-guard-returned".into() },
+            "no order of the calls' effects that respects their real-time order explains the outcomes by the shared-xor-exclusive model (a guard was handed out although the cell was taken, or a call failed although nothing conflicting was held)".into(),
+        ))
+    }
 }
 
 pub struct C8Conc {
@@ -871,6 +983,8 @@ pub fn run_concurrent_part(ntasks: usize, bound: u32, deadline: std::time::Insta
     // tasks are symmetric: keep sorted configurations only
     configs.retain(|c| c.windows(2).all(|w| format!("{:?}", w[0]) <= format!("{:?}", w[1])));
     let configs = Arc::new(configs);
+    // every borrow / release of every cell is a scheduling point while this part runs
+    shred::cell::verif::set_points(true);
     let next = Arc::new(std::sync::atomic::AtomicUsize::new(0));
     let total: Arc<Mutex<(u64, u64, u64, u64, Collector, bool)>> = Arc::new(Mutex::new((0, 0, 0, 0, Collector::default(), false)));
     std::thread::scope(|s| {
@@ -901,7 +1015,7 @@ pub fn run_concurrent_part(ntasks: usize, bound: u32, deadline: std::time::Insta
                         }
                     };
                     Some(sched::Job {
-                        cfg: Cfg { bound, deadline: Some(deadline), ..Default::default() },
+                        cfg: Cfg { bound, deadline: Some(deadline), all_points: true, ..Default::default() },
                         body: Arc::new(body),
                         on_abnormal: Box::new(move |ab: Abnormal, ch: Vec<u16>| {
                             a3.lock().unwrap().0.add(Finding { prop: "MACHINERY".into(), sig: "c08-concurrent-abnormal".into(), msg: format!("{:?} tasks {:?}", ab, cfg2), replay: json!({"choices": ch}), size: 0 });
@@ -926,6 +1040,7 @@ pub fn run_concurrent_part(ntasks: usize, bound: u32, deadline: std::time::Insta
             });
         }
     });
+    shred::cell::verif::set_points(false);
     let mut t = total.lock().unwrap();
     col.merge(std::mem::take(&mut t.4));
     C8Conc { configs: configs.len() as u64, schedules: t.0, nodes: t.1, transitions: t.2, conflicts_seen: t.3, capped: t.5 }
